@@ -197,6 +197,11 @@ class Closure:
                     self.sites.append({"fn": fi, "call": n, "name": name, "protected": prot or not raising_cb, "chain": chain, "why": "onerror re-raises the listing error" if raising_cb else TOLERANT[name]})
                     continue
                 cs = self.callees(fi, selfcls, node, n)
+                # a program function handed on as a value (`self._queue_sub_events(generate_sub_created_events, path)`) is called by
+                # the callee: followed from here, under this call site's protection
+                for a_ in list(n.args) + [k.value for k in n.keywords]:
+                    if isinstance(a_, ast.Name):
+                        cs += self.callees(fi, selfcls, node, ast.Call(a_, [], []))
                 if not cs and (isinstance(n.func, ast.Name) or (dotted(n.func) or "").startswith("self.")):
                     self.unresolved += 1
                 if prot:
